@@ -118,8 +118,19 @@ def g6_modifiers(ctx, g, prefix):
         ctx.check(not shadow, prefix, "G6|modifier-shadow", "G6: no modifier alternative is shadowed by an earlier strict prefix (%s)" % (shadow or "none"), W)
 
 
-def _macro_args_shape(g):
+def _message_guard(g):
+    """negative look-aheads that follow the message literal at the end of macro_args: they consume nothing and
+    can only reject. Returns (parts without them, set of first characters they reject)"""
     parts = flatten(g.rules["macro_args"]["expr"], "seq")
+    rejected = set()
+    while parts and parts[-1]["k"] == "neg":
+        rejected |= g.first(g.inline(parts[-1]["e"]))
+        parts = parts[:-1]
+    return parts, rejected
+
+
+def _macro_args_shape(g):
+    parts, _rej = _message_guard(g)
     desc = []
     for p in parts:
         if p["k"] == "str":
@@ -138,6 +149,11 @@ def g7_literal_mandatory(ctx, g, prefix):
         return
     d = _macro_args_shape(g)
     ctx.check(bool(d) and d[-1] == ("rule", "string_literal"), prefix, "G7|literal-last", "G7: macro_args ends with a mandatory string_literal (%s)" % d, W)
+    # what may follow the message in a canonical statement is `,` or `)` (or white space / a comment): a look-ahead
+    # after the literal must not reject those
+    _parts, rej = _message_guard(g)
+    bad = sorted(str(x) for x in rej if x in (("chr", ","), ("chr", ")"), ("chr", "/"), ("chr", " "), ("chr", "\n"), ("chr", "\t"), ("chr", "\r")) or x[0] in ("class", "range"))
+    ctx.check(not bad, prefix, "G7|literal-follow", "G7: nothing that can follow the message of a canonical statement is rejected by a look-ahead after it (%s)" % (bad or sorted(str(x) for x in rej) or "no look-ahead"), W)
     ctx.check(not g.nullable(g.expr("string_literal")), prefix, "G7|literal-nonnull", "G7: string_literal cannot match the empty string", W)
     sl = g.seq_of("string_literal")
     ctx.check(sl and sl[0]["k"] == "str" and sl[0]["v"] == '"', prefix, "G7|literal-quote", "G7: string_literal opens with a double quote", W)
@@ -486,3 +502,44 @@ def g17_string_escapes(ctx, g, prefix):
     if "string_literal" in g.rules:
         sl = [(p["k"], p.get("v")) for p in g.seq_of("string_literal")]
         ctx.check(sl == [("str", '"'), ("ident", "string_value"), ("str", '"')], prefix, "G17|literal-shape", "G17: string_literal = `\"` string_value `\"` (%s)" % sl, W)
+
+
+def recognition_premises(ctx, g, prefix):
+    """What a property that speaks of "recognised" statements (C01: IDs already carried; C02: IDs ever written)
+    borrows from C10: a statement the grammar loses is invisible to the scanning pass and its ID is issued again.
+    G12 is taken without its `string alternative required` half (that half is the known finding D15, reported
+    under C10 / C11); with a string alternative present, G12b still demands char literals."""
+    g1_whitespace(ctx, g, prefix)
+    g4_non_atomic(ctx, g, prefix)
+    g5_name_atomic(ctx, g, prefix)
+    g7_literal_mandatory(ctx, g, prefix)
+    g12_scan_strings(ctx, g, prefix, require_string=False)
+    g13_qualified(ctx, g, prefix)
+    g14_order(ctx, g, prefix)
+    g15_kvp_args(ctx, g, prefix)
+    g9_kvp_value(ctx, g, prefix)
+    g16_strings_atomic(ctx, g, prefix)
+    g17_string_escapes(ctx, g, prefix)
+    scan_alignment(ctx, g, prefix)
+
+
+def literal_text_premises(ctx, g, prefix):
+    """The text handed to the token recogniser and the offset used for the insertion are the span of the string
+    body: it must start at the literal's first character (no implicit skipping after the quote) and end at the
+    closing quote (escapes kept whole)."""
+    g16_strings_atomic(ctx, g, prefix)
+    g17_string_escapes(ctx, g, prefix)
+
+
+def g18_message_not_key(ctx, g, prefix):
+    """`kvp_args?` is optional: when the key-value list of a statement cannot be parsed (a value nested deeper than
+    the grammar follows, an unknown modifier) the parser goes on without it, and a string-literal *key* at the head
+    of the list is then the first string after `(`. It must not be taken for the message: the message literal is
+    followed by a look-ahead that rejects `=` and `:` (what follows a key)."""
+    if not need(ctx, g, prefix, ["macro_args", "kvp_key"]):
+        return
+    string_keys = ("chr", '"') in g.first(g.expr("kvp_key"))
+    _parts, rej = _message_guard(g)
+    ok = (not string_keys) or (("chr", "=") in rej and ("chr", ":") in rej)
+    ctx.check(ok, prefix, "G18|message-not-key", "G18: a string literal followed by `=` or `:` is a key, never the message (string keys accepted: %s; rejected after the message: %s)" %
+              (string_keys, sorted(x[1] for x in rej if x[0] == "chr") or "nothing"), W)
